@@ -64,6 +64,7 @@ def finish(pid, tier, seed, repo, results, bounded, lean, known, wall, meta):
     backends = {}
     solver_s = 0.0
     samples = []
+    batteries = []
     rdir = os.path.join(VERIF, "replays", pid)
     for r in results:
         if r.get("error"):
@@ -79,6 +80,21 @@ def finish(pid, tier, seed, repo, results, bounded, lean, known, wall, meta):
         if r.get("out_of_reach"):
             out_of_reach.append(dict(contract=r["contract"], fn=r["fn"], reason=r["out_of_reach"]))
             continue
+        for b in r.get("batteries", []):
+            batteries.append(dict(contract=r["contract"], target=b["target"], ok=b["ok"], seconds=b["seconds"]))
+            if not b["ok"]:
+                out_ = b.get("outcome") or {}
+                if out_.get("kind") == "return":
+                    violations += 1
+                    os.makedirs(rdir, exist_ok=True)
+                    path = os.path.join(rdir, "battery_" + _san(r["contract"] + "_" + b["target"].split(":")[-1]) + ".json")
+                    json.dump(dict(property=pid, obligation="battery:%s" % b["target"], contract=r["contract"], tier="bounded", outcome=out_, repo=repo,
+                                   reproducer="PYTHONPATH=%s:%s /venv/bin/python -c 'from bounded import replay_helpers as r; print(r.%s())'" % (repo, VERIF, b["target"].split(":")[-1])),
+                              open(path, "w"), indent=1, default=str)
+                    lines.append("VIOLATION property=%s replay=%s" % (pid, path))
+                else:
+                    broken += 1
+                    lines.append("CHECKER-BROKEN property=%s battery %s did not run: %s" % (pid, b["target"], str(out_)[:300]))
         for o in r["obligations"]:
             n_obl += 1
             solver_s += o.get("seconds", 0)
@@ -160,6 +176,9 @@ def finish(pid, tier, seed, repo, results, bounded, lean, known, wall, meta):
                functions_under_contract=functions, backends=backends, solver_time_s=round(solver_s, 3), out_of_reach=out_of_reach,
                extraction_drops=EXTRACTION_DROPS, known_findings_matched=sorted(known_hit),
                explanation=meta["claim"], samples=samples)
+    if batteries:
+        cov["contract_batteries"] = dict(note="BOUNDED (never counted as proved): the concrete battery of each contract (bounded/replay_helpers.py) run on the real code in this run",
+                                         run=len(batteries), passed=sum(1 for b in batteries if b["ok"]), batteries=batteries)
     if bcov:
         cov["bounded"] = bcov
         cov["evaluations"] = bcov.get("evaluations") or 0
